@@ -12,9 +12,12 @@ package hash_test
 
 import (
 	"fmt"
+	"hash/fnv"
 	"sort"
 	"strconv"
+	"sync"
 	"testing"
+	"time"
 
 	kit "github.com/gotid/god/internal/verifkit"
 	"github.com/gotid/god/lib/hash"
@@ -86,7 +89,22 @@ func (w *c13World) lookPop(r *hash.ConsistentHash) []string {
 	return out
 }
 
+// c13Fnv is a caller-supplied hash function (FNV-1a, 64 bit, with a final avalanche step): the
+// contract clauses do not depend on which function places the virtual nodes.
+func c13Fnv(data []byte) uint64 {
+	h := fnv.New64a()
+	h.Write(data)
+	x := h.Sum64()
+	x ^= x >> 33
+	x *= 0xff51afd7ed558ccd
+	x ^= x >> 33
+	return x
+}
+
 func c13NewRing(base int) *hash.ConsistentHash {
+	if kit.Env("VERIF_HASH", "") == "fnv" {
+		return hash.NewCustomConsistentHash(base, c13Fnv)
+	}
 	if base == 100 {
 		return hash.NewConsistentHash()
 	}
@@ -210,4 +228,56 @@ func TestVerifC13(t *testing.T) {
 		rep.Put(runC13Case(w, c, base, tr))
 	}
 	rep.Count("events", int(tr.N))
+}
+
+// TestVerifC13Race: lookups concurrent with membership changes, meant to be run under -race.
+// The statement does not quantify over concurrency, so nothing is compared here: only a data
+// race reported by the race detector or a panic (both make the test binary fail) is a finding.
+func TestVerifC13Race(t *testing.T) {
+	w := newC13World(2000, kit.Seed())
+	ring := hash.NewConsistentHash()
+	stop := make(chan struct{})
+	var wg sync.WaitGroup
+	var lookups [4]int
+	for g := 0; g < 4; g++ {
+		wg.Add(1)
+		go func(g int) {
+			defer wg.Done()
+			for i := 0; ; i++ {
+				select {
+				case <-stop:
+					return
+				default:
+				}
+				ring.Get(w.pop[(i*7+g)%len(w.pop)])
+				ring.Get(w.probe[i%len(w.probe)])
+				lookups[g] += 2
+			}
+		}(g)
+	}
+	rounds := kit.EnvInt("VERIF_ROUNDS", 300)
+	deadline := time.Now().Add(20 * time.Second)
+	n := 0
+	for ; n < rounds && time.Now().Before(deadline); n++ {
+		for _, name := range w.order {
+			node := w.nodes[name]
+			switch (n + len(name)) % 4 {
+			case 0:
+				ring.Add(node)
+			case 1:
+				ring.AddWithWeight(node, (n*37)%101)
+			case 2:
+				ring.AddWithReplicas(node, (n*53)%201)
+			case 3:
+				ring.Remove(node)
+			}
+		}
+	}
+	close(stop)
+	wg.Wait()
+	total := 0
+	for _, c := range lookups {
+		total += c
+	}
+	fmt.Printf("C13RACE rounds=%d lookups=%d\n", n, total)
 }
